@@ -112,6 +112,21 @@ CLAIMED["C05"] = dict(
     technique="Coq proof over fold-based collection + order lemmas; in-Coq differential correspondence with tabulated oracles",
     design="5/C05")
 
+CLAIMED["C04"] = dict(
+    text=("Order-faithful model of the rescue regrouping (cutoff with tabulated 10^-x, strict filter, subset grouping of the "
+          "kept peptides, identified-group detection, bipartite graph over leading proteins, component decoupling worklist, "
+          "add_unseen with placeholders); networkx's minimum-cut search is an ORACLE whose recorded answers are contract-checked "
+          "and replayed. Theorems for every contract-satisfying oracle: merging only moves proteins; the result is a duplicate-free "
+          "partition of exactly the first-pass proteins with no empty group; groups that are no graph node (all groups with a "
+          "peptide of their own) survive unchanged; remnants = former group-mates that kept nothing; placeholders exist exactly for "
+          "completely absorbed groups and carry the marker that keeps them out of the report; no unidentified group => plain subset "
+          "grouping. PARTIAL: 'merged iff inseparable' and 'only within a connected component' are decided by the exact "
+          "correspondence plus a brute-force monitor of all C04 clauses on the implementation's output, not by a theorem."),
+    note=COMMON_NOTE + "Min-cut search not modelled (monitored contract). rescue_partition assumes the initial components are "
+         "leading proteins of distinct groups (checked on every recorded call). np.power tabulated. Axioms: none.",
+    technique="Coq proof for all contract-satisfying splitter oracles + recorded-oracle differential correspondence + brute-force property monitor",
+    design="5/C04")
+
 ALL = [f"C{i:02d}" for i in range(1, 21)]
 
 
